@@ -209,8 +209,9 @@ Theorem C19_crs_eq_implies_hash_refuted :
 Proof. exact eq_hash_witness. Qed.
 Print Assumptions C19_crs_eq_implies_hash_refuted.
 
-(** PARTIAL: on instances spelled as EPSG codes, == implies equal hash keys.  (Missing: instances whose
-    string form is a WKT / PROJJSON / PROJ text.) *)
+(** PARTIAL: on instances spelled as a single EPSG code ([Depsg]: the string form is "EPSG:" followed by a
+    non-zero code), == implies equal hash keys.  (Missing: instances whose string form is a WKT / PROJJSON /
+    PROJ text or a compound "EPSG:h+v" definition.) *)
 Theorem C19_crs_eq_implies_hash_partial :
   forall W, contracts W -> forall Hp a b, Depsg W Hp a -> Depsg W Hp b -> crs_eq W a b = true -> crs_hashkey a = crs_hashkey b.
 Proof. exact hash_dom_epsg. Qed.
